@@ -272,6 +272,7 @@ def transition_probes(iv_prev, iv_next) -> list[int]:
 
 def task_transitions(ctx: Ctx, ids: list[str], thorough: bool, years: list[int]) -> None:
     ev = nt = 0
+    cal_ids = pyo.cal_ids()
     for zid in ids:
         if ctx.should_abort():
             break
@@ -318,6 +319,13 @@ def task_transitions(ctx: Ctx, ids: list[str], thorough: bool, years: list[int])
             for dn in {(ivs[i][0] + ivs[i][3] * SEC) // DAY, (ivs[i][0] + ivs[i - 1][3] * SEC) // DAY}:
                 ctx.case("sod", {"zone": zid, "n": dn})
                 ctx.case("sod", {"zone": zid, "n": dn + 1})
+                # the same days in another calendar (rotating through all of them): the answer is a property of the
+                # physical day, whatever calendar the date is expressed in
+                cid = cal_ids[(i + len(zid)) % len(cal_ids)]
+                cc = pyo.cal(cid)
+                if cid != "ISO" and cc._min_days <= dn and dn + 1 <= cc._max_days:
+                    ctx.case("sod", {"zone": zid, "n": dn, "cal": cid})
+                    ctx.case("sod", {"zone": zid, "n": dn + 1, "cal": cid})
     ctx.bulk(ev, nt, None)
     ctx.sample("map", {"zone": ids[0], "L": 0}, True)
 
